@@ -12,6 +12,9 @@ from .helper import normalize
 _TOKENIZER_CACHE = {}
 
 
+_escapednonascii = re.compile(r'\\([\s\S])').sub
+
+
 class Tokenizer:
     """
     generates a list of Token tuples:
@@ -238,6 +241,16 @@ class Tokenizer:
                             value = self.unicodesub(
                                 _repl_comment if name == 'COMMENT' else _repl, value
                             )
+                            if name != 'COMMENT' and '\\' in value:
+                                # a backslash in front of a non-ASCII character
+                                # escapes nothing: kept, the character would be
+                                # lost when it has to be written as hex escape
+                                value = _escapednonascii(
+                                    lambda m: m.group(1)
+                                    if m.group(1) > '\x7f'
+                                    else m.group(0),
+                                    value,
+                                )
 
                         else:
                             if 'ATKEYWORD' == name:
